@@ -5,6 +5,7 @@ package main
 // The harness plays that participant by rewriting its result before it reaches its node.
 
 import (
+	"crypto/ed25519"
 	"encoding/hex"
 	"encoding/json"
 	"fmt"
@@ -20,6 +21,7 @@ import (
 	"github.com/corestario/kyber/sign/schnorr"
 	"github.com/lidofinance/dc4bc/client/types"
 	"github.com/lidofinance/dc4bc/fsm/types/requests"
+	"github.com/lidofinance/dc4bc/storage"
 )
 
 type deviation struct {
@@ -48,6 +50,9 @@ var deviations = []deviation{
 	{"deal-is-the-self-confirmation-marker", "state_dkg_deals_await_confirmations"},
 	// 450 KB of noise: fits a line of the board; whatever the addressee's machine says about it must fit one too
 	{"deal-large-noise", "state_dkg_deals_await_confirmations"},
+	// the dealer posts its deals ONE BY ONE: the garbled deal for the victim at once, its honest deal for a third participant only
+	// after the victim has reported: the third node is still collecting deals when the report arrives
+	{"deal-bitflip-report-arrives-before-a-held-back-deal", "state_dkg_deals_await_confirmations"},
 	{"response-complaint", "state_dkg_responses_await_confirmations"},
 	// the same complaint, signed by its author (the deviating participant holds its long-term key): a well-formed complaint
 	{"response-complaint-signed", "state_dkg_responses_await_confirmations"},
@@ -71,6 +76,7 @@ func (a *algRun) c11Scenario(outDir string, n, t, dealer, victim int, dev deviat
 		return
 	}
 	applied := false
+	var heldBack *storage.Message
 	var bcast, real []string // scalars (hex) of the broadcast commitments and of the dealer's real polynomial, when known
 	c.resultHook = func(nd *vnode, res *types.Operation) {
 		if nd.idx != dealer || string(res.Type) != dev.step || len(res.ResultMsgs) == 0 {
@@ -147,6 +153,22 @@ func (a *algRun) c11Scenario(outDir string, n, t, dealer, victim int, dev deviat
 			res.ResultMsgs[0].Data, _ = json.Marshal(req)
 			applied = true
 		case "state_dkg_deals_await_confirmations":
+			if dev.name == "deal-bitflip-report-arrives-before-a-held-back-deal" && n >= 3 {
+				third := 0
+				for third == dealer || third == victim {
+					third++
+				}
+				var kept []storage.Message
+				for _, m := range res.ResultMsgs {
+					if m.RecipientAddr == c.nodes[third].name && heldBack == nil {
+						cp := m
+						heldBack = &cp
+						continue
+					}
+					kept = append(kept, m)
+				}
+				res.ResultMsgs = kept
+			}
 			for k := range res.ResultMsgs {
 				m := &res.ResultMsgs[k]
 				if m.RecipientAddr != c.nodes[victim].name {
@@ -157,7 +179,7 @@ func (a *algRun) c11Scenario(outDir string, n, t, dealer, victim int, dev deviat
 					continue
 				}
 				switch dev.name {
-				case "deal-bitflip":
+				case "deal-bitflip", "deal-bitflip-report-arrives-before-a-held-back-deal":
 					req.Deal[len(req.Deal)/2] ^= 0x10
 				case "deal-truncated":
 					req.Deal = req.Deal[:len(req.Deal)/2]
@@ -240,6 +262,16 @@ func (a *algRun) c11Scenario(outDir string, n, t, dealer, victim int, dev deviat
 		}
 	}
 	errs := c.pump(60)
+	if heldBack != nil {
+		// now the dealer posts the deal it held back (signed with its key, as its node would have), and everybody reads on
+		heldBack.SenderAddr = c.nodes[dealer].name
+		heldBack.Signature = ed25519.Sign(c.nodes[dealer].kp.Priv, heldBack.Data)
+		if err := c.nodes[dealer].stg.Send(*heldBack); err != nil {
+			a.mon("harness: " + err.Error())
+			return
+		}
+		errs = append(errs, c.pump(60)...)
+	}
 	a.st.C11Scenarios++
 	a.st.OutcomeHist["c11:"+dev.name]++
 	if !applied {
